@@ -223,6 +223,9 @@ func GenPlan(r *core.Rng, seed, run uint64) *Plan {
 			}
 			for b := 0; b < burst && live < maxLive; b++ {
 				s := Step{Op: "spawn", Kind: kinds[r.Intn(len(kinds))], Creator: r.Intn(4), Locked: r.Chance(0.1), Hop: []int{0, 0, 0, 1, 2}[r.Intn(5)], Via: r.Chance(0.3)}
+				if r.Chance(0.15) {
+					s.Hop = 3 + r.Intn(12)
+				}
 				if (s.Kind == "nilrecv" || s.Kind == "nilsend" || s.Kind == "selectnone") && leaks >= 2 {
 					s.Kind = "recv"
 				}
@@ -344,15 +347,27 @@ func (e *entry) body() {
 		defer runtime.UnlockOSThread()
 	}
 	close(e.started)
-	switch e.hop {
-	case 1:
+	switch {
+	case e.hop == 1:
 		genericHop(e.depth, e, struct{ a, b int }{1, 2})
-	case 2:
+	case e.hop == 2:
 		e.viaClosure()
+	case e.hop >= 3 && len(exoticHops) > 0:
+		exoticHops[(e.hop-3)%len(exoticHops)](e.depth, e)
 	default:
 		rec(e.depth, e)
 	}
 }
+
+// exoticHops are functions compiled under //line directives that place them
+// in source files with the path shapes of real dependencies (module cache,
+// GOPATH, vendor, gopkg.in, golang.org/x, pseudo-versions); they exist only in
+// builds made by stages/C20.sh (zz_exotic_test.go is generated and added by
+// the overlay). Hop k >= 3 puts exoticHops[k-3] on the stack.
+var (
+	exoticHops  []func(int, *entry) int
+	exoticNames []string
+)
 
 // genericHop puts a generic instantiation on the stack (printed as
 // genericHop[...] by the runtime).
@@ -628,6 +643,11 @@ func (c *checker) checkLibrary(dump []byte, reg []*entry, opts *stack.Opts) {
 				want = append(want, "genericHop[...]")
 			case 2:
 				want = append(want, "(*entry).viaClosure.func1", "(*entry).viaClosure")
+			default:
+				if e.hop >= 3 && len(exoticHops) > 0 {
+					want = append(want, exoticNames[(e.hop-3)%len(exoticHops)])
+					c.probes["frame-in-dependency-like-path"]++
+				}
 			}
 			want = append(want, "(*entry).body")
 			if strings.Join(fr, ",") != strings.Join(want, ",") {
